@@ -329,6 +329,7 @@ class Executor:
                 self._own_out_hashes(step, new_out_hashes), cause=HashUpdateCause.SUCCEEDED
             )
             step.mark_completed(new_hash, False)
+            self._repend_if_inputs_moved_on(run)
             # Do not call `scheduler.record_run_stopped`, as no start time was recorded either.
         self._report_step_counts()
 
@@ -368,6 +369,8 @@ class Executor:
                 cause=HashUpdateCause.SUCCEEDED if run.success else HashUpdateCause.FAILED,
             )
             run.interrupted_defer = step.mark_completed(new_hash, wants_defer)
+            if new_hash is not None and not wants_defer:
+                self._repend_if_inputs_moved_on(run)
             self.scheduler.record_run_stopped(step.i, succeeded=new_hash is not None)
             if wants_defer and not run.interrupted_defer:
                 # Erase error info to keep the screen output concise.
@@ -447,6 +450,26 @@ class Executor:
             new_hash = None
 
         return new_hash, wants_defer
+
+    def _repend_if_inputs_moved_on(self, run: Run) -> None:
+        """Make a step that just succeeded pending again when an input was recorded otherwise.
+
+        Must be called inside the database transaction that records the success.
+        The step hash covers the inputs as they were validated before the command started
+        (or before the skip check), which is also what is on disk according to this job.
+        In the meantime, another step that failed on an unexpected change of the same file
+        may have recorded the new hash of that file.
+        It also made the consumers of the file pending at that moment,
+        except the ones that were RUNNING or CHECKING (see `Workflow.mark_step_pending`).
+        Such a step is already outdated when it succeeds.
+        Without this, it would stay SUCCEEDED with a hash that does not match its inputs,
+        and no later scan would notice, since the file is recorded as it is on disk.
+        """
+        if len(run.start_inp_hashes) == 0:
+            return
+        recorded = self.workflow.get_file_hashes(run.start_inp_hashes)
+        if any(recorded.get(path) != fh for path, fh in run.start_inp_hashes.items()):
+            self.workflow.mark_step_pending(run.step)
 
     @staticmethod
     def _own_out_hashes(step: Step, new_out_hashes: Mapping[str, FileHash]) -> dict[str, FileHash]:
